@@ -51,8 +51,14 @@ theorem mm_tInput (fuel : Nat) : ∀ (i : Terminator.Input) (v : World), MainMon
         · mm_rfl
         · mm_rfl
         · mm_rfl
-        · show MainMono u (if u.hasMgr = true then andThen (mInput .k_stop "" 0 u) (fun w1 => (whenStopped w1, none))
-                  else tInput f .stoppedD u).1
+        · show MainMono u (if (stopCoop u).hasMgr = true then andThen (mInput .k_stop "" 0 (stopCoop u)) (fun w1 => (whenStopped w1, none))
+                  else tInput f .stoppedD (stopCoop u)).1
+          have hsc : MainMono u (stopCoop u) := by
+            refine ⟨?_, stopCoop_timerOk u⟩
+            obtain ⟨b, e⟩ := stopCoop_same u
+            rw [e]; exact fun h => h
+          refine MainMono.trans hsc ?_
+          generalize stopCoop u = u'
           split
           · refine mm_andThen (keep_mInput _ _ _ _).mono ?_
             intro x
@@ -152,6 +158,18 @@ theorem mm_step (v : World) (e : Ev) : MainMono v (step v e).1 := by
     · split
       · exact mm_connectAs _ v
       · mm_rfl
+  | producer pull i =>
+    simp only [step]
+    split
+    · split
+      · mm_rfl
+      · rw [ofres]
+        unfold registerProducer
+        dsimp only
+        split
+        · split <;> mm_rfl
+        · mm_rfl
+    · mm_rfl
   | term i => simp only [step, ofres]; exact mm_tInput _ _ _
   | turn =>
     simp only [step, turn]
@@ -162,24 +180,24 @@ theorem mm_step (v : World) (e : Ev) : MainMono v (step v e).1 := by
     split
     · mm_rfl
     · split
-      · exact ⟨fun h => h, fun _ hf => by
-          simp only at hf
-          split at hf
-          · cases hf
-          · rename_i hc; simpa using hc⟩
-      · split
-        · exact ⟨fun h => h, fun _ hf => by
+      · exact ⟨fun h => h, fun ht => ⟨(fun hf => by
             simp only at hf
             split at hf
             · cases hf
-            · rename_i hc; simpa using hc⟩
+            · rename_i hc; simpa using hc), ht.2⟩⟩
+      · split
+        · exact ⟨fun h => h, fun ht => ⟨(fun hf => by
+            simp only at hf
+            split at hf
+            · cases hf
+            · rename_i hc; simpa using hc), ht.2⟩⟩
         · rw [ofres]
           refine MainMono.trans ?_ (mm_ttOuts _ _)
-          exact ⟨fun h => h, fun _ hf => by
+          exact ⟨fun h => h, fun ht => ⟨(fun hf => by
             simp only at hf
             split at hf
             · cases hf
-            · rename_i hc; simpa using hc⟩
+            · rename_i hc; simpa using hc), ht.2⟩⟩
   | lready k =>
     simp only [step]
     split
